@@ -38,14 +38,14 @@ LEVEL_TEXT = (
     "HTTP 410, 429/other request failures, unknown ERROR, garbage, compaction, pause/resume timing) over a model of "
     "infinite_watch∘streaming_block∘continuous_watch∘watch_objs against a change-log server: no_skip_inv/no_skip "
     "(everything up to `since` was delivered or listed; at quiescence nothing is missing), deliver_in_order, "
-    "resume_point, relist_on_410_partial (in-stream form) with relist_on_410_http_witness (HTTP form is false of the code), "
+    "resume_point, relist_on_410 (in-stream ERROR 410 and HTTP 410 on the watch request, both re-list), respond_never_fails, "
     "unknown_error_raises, failed_is_final, paused_silent, fresh_list_on_resume; and for ALL insight histories: "
     "adjust_keys (one-step characterisation), watchers_nodup, kept_tasks_kept, exactly_one_watch_partial (guard: a "
     "namespace is served or no cluster-scoped resource; fixed operator mode; stable scope) with "
     "exactly_one_watch_lingering_witness. The models are hand-written and tied to the code by correspondence runs.")
 THEOREMS = [("Kopf.Props.C19", "Kopf.C19." + n) for n in [
-    "no_skip_inv", "no_skip", "deliver_in_order", "resume_point", "relist_on_410_partial",
-    "relist_covers_everything", "relist_on_410_http_witness", "unknown_error_raises", "failed_is_final",
+    "no_skip_inv", "no_skip", "deliver_in_order", "resume_point", "relist_on_410",
+    "relist_covers_everything", "respond_never_fails", "unknown_error_raises", "failed_is_final",
     "paused_silent", "pause_noticed_is_quiet", "fresh_list_on_resume", "outs_is_ghost", "adjust_keys", "watchers_nodup", "kept_tasks_kept",
     "exactly_one_watch_partial", "exactly_one_watch_lingering_witness"]]
 RULE = ("stream scripts: 0-2 pre-existing objects, cluster-wide or namespaced watch, 3-10 moments at dyadic times, each a "
@@ -63,6 +63,7 @@ ASSUMPTIONS = ["resource versions are modelled as naturals (Kubernetes: opaque s
                "a resource keeps its scope (namespaced/cluster) over a history; operator mode (cluster-wide vs namespaced) is fixed per run",
                "peering absent (standalone or peering CRD not in the backbone)"]
 
+# C19-F1 was repaired in kopf e006454; the signature stays so that a regression is reported as a VIOLATION
 F1_SIG = {"site": "watching.continuous_watch", "shape": "HTTP 410 on the watch request is not treated as too-old: no re-list"}
 F2_SIG = {"site": "api.request", "shape": "retry attempts of a list/watch request begun before the pause are re-sent while paused"}
 F3_SIG = {"site": "orchestration.terminate_redundancies", "shape": "cluster-scoped watcher survives the removal of the last served namespace"}
